@@ -92,7 +92,43 @@ func c14Tables(c *Ctx, in *absint.Interp) {
 
 	// colour
 	parseC := c.fn("R14-tables", "pkg/board/fen", "", "parseColor")
-	printC := c.fn("R14-tables", "pkg/board/fen", "", "printColor")
+	printC := c.find("pkg/board/fen", "", "printColor")
+	if parseC != nil && printC == nil {
+		// no separate colour printer: the letter is chosen inline in Encode (a constant per colour, selected by
+		// comparisons of the colour parameter) - the second operand of its Sprintf
+		encode := c.fn("R14-tables", "pkg/board/fen", "", "Encode")
+		if encode != nil {
+			key := absint.NewSym(parseC.Params[0].Type(), "str")
+			tab := switchTable(in, parseC, []absint.Value{key}, key)
+			parsed := map[string]string{}
+			for _, e := range tab {
+				if tp, ok := e.ret.(*absint.Tuple); ok && len(tp.E) == 2 {
+					if okv, _ := absint.ConstBool(tp.E[1]); okv && e.key != "default" {
+						parsed[e.key] = vstrOf(tp.E[0])
+					}
+				}
+			}
+			_, vals, _ := encodeSlots(encode)
+			var colP *ssa.Parameter
+			for _, p := range encode.Params {
+				if n := namedOf(p.Type()); n != nil && n.Obj().Name() == "Color" {
+					colP = p
+				}
+			}
+			for _, col := range []struct {
+				name, letter string
+				v            int64
+			}{{"White", "w", white}, {"Black", "b", black}} {
+				got, ok := "", false
+				if len(vals) > 1 && colP != nil {
+					var g string
+					g, ok = guardedConstString(vals[1], colP, col.v)
+					got = fmt.Sprintf("%q", g)
+				}
+				r.Check(ok && got == fmt.Sprintf("%q", col.letter) && parsed[got] == fmt.Sprint(col.v), "R14-tables", "fen side-to-move letter|"+col.name, c.pos(encode.Pos()), "", fmt.Sprintf("printed as %s (decided=%v), standard %q; reader maps it to %s", got, ok, col.letter, parsed[got]))
+			}
+		}
+	}
 	if parseC != nil && printC != nil {
 		key := absint.NewSym(parseC.Params[0].Type(), "str")
 		tab := switchTable(in, parseC, []absint.Value{key}, key)
@@ -341,42 +377,7 @@ func c14Wiring(c *Ctx) {
 		r.Check(epOK && np != nil, "R14-wiring", "fen.Decode reads the e.p. square from field 4", c.pos(decode.Pos()), "", "")
 	}
 	// Encode's Sprintf operands
-	var slots []string
-	var slotVals []ssa.Value
-	format := ""
-	for _, blk := range encode.Blocks {
-		for _, ins := range blk.Instrs {
-			call, ok := ins.(*ssa.Call)
-			if !ok || call.Call.StaticCallee() == nil || call.Call.StaticCallee().String() != "fmt.Sprintf" {
-				continue
-			}
-			// varargs array stores in order
-			if sl, ok := call.Call.Args[1].(*ssa.Slice); ok {
-				if arr, ok := sl.X.(*ssa.Alloc); ok {
-					byIdx := map[int64]string{}
-					byIdxV := map[int64]ssa.Value{}
-					for _, ref := range *arr.Referrers() {
-						if ia, ok := ref.(*ssa.IndexAddr); ok {
-							i, _ := constInt(ia.Index)
-							for _, r2 := range *ia.Referrers() {
-								if st, ok := r2.(*ssa.Store); ok {
-									byIdx[i] = pathExpr(st.Val)
-									byIdxV[i] = st.Val
-								}
-							}
-						}
-					}
-					for i := int64(0); i < int64(len(byIdx)); i++ {
-						slots = append(slots, byIdx[i])
-						slotVals = append(slotVals, byIdxV[i])
-					}
-					if cs, ok := call.Call.Args[0].(*ssa.Const); ok && cs.Value != nil {
-						format = constant.StringVal(cs.Value)
-					}
-				}
-			}
-		}
-	}
+	slots, slotVals, format := encodeSlots(encode)
 	// the six fields, in order, each computed from the right parameter through the right printer -
 	// provenance, so inline code and helpers are the same
 	good := len(slots) == 6 && strings.Count(format, "%") == 6 && !strings.Contains(format, "[") && len(strings.Fields(format)) == 6
@@ -387,12 +388,31 @@ func c14Wiring(c *Ctx) {
 			param int
 			via   []string
 		}
-		ws := map[int]want{1: {"side to move", 1, []string{c.roleName("pkg/board/fen", "", "printColor")}}, 2: {"castling", 0, []string{c.roleName("pkg/board/fen", "", "printCastling"), "Castling"}},
+		colourVia := []string{c.roleName("pkg/board/fen", "", "printColor")}
+		if c.find("pkg/board/fen", "", "printColor") == nil {
+			colourVia = nil // chosen inline: the letters themselves are decided by R14-tables
+		}
+		ws := map[int]want{1: {"side to move", 1, colourVia}, 2: {"castling", 0, []string{c.roleName("pkg/board/fen", "", "printCastling"), "Castling"}},
 			3: {"e.p. square", 0, []string{"EnPassant"}}, 4: {"half-move clock", 2, nil}, 5: {"full-move number", 3, nil}}
 		for i := 1; i < 6; i++ {
 			w := ws[i]
 			pv := c.provenance(encode, slotVals[i])
 			ok := pv.onlyParam(w.param)
+			if i == 1 && colourVia == nil && !ok {
+				// inline choice of the letter: the operand depends on the colour parameter through the branch that
+				// selects the constant, not through data flow - decided by evaluating it for both colours
+				var colP *ssa.Parameter
+				if w.param < len(encode.Params) {
+					colP = encode.Params[w.param]
+				}
+				if colP != nil {
+					wv, _ := constVal(c.P, "pkg/board", "White")
+					bv, _ := constVal(c.P, "pkg/board", "Black")
+					a, okA := guardedConstString(slotVals[i], colP, wv)
+					b, okB := guardedConstString(slotVals[i], colP, bv)
+					ok = okA && okB && a != b
+				}
+			}
 			for _, v := range w.via {
 				ok = ok && pv.via(v)
 			}
@@ -668,4 +688,114 @@ func c14Moves(c *Ctx, g *gameModel) {
 			r.Check(bad == "", "R14-clocks", cons, where, kind+" "+col, bad)
 		}
 	}
+}
+
+// encodeSlots: the operands of the Sprintf that assembles the six FEN fields, in order, and its format.
+func encodeSlots(encode *ssa.Function) (slots []string, slotVals []ssa.Value, format string) {
+	for _, blk := range encode.Blocks {
+		for _, ins := range blk.Instrs {
+			call, ok := ins.(*ssa.Call)
+			if !ok || call.Call.StaticCallee() == nil || call.Call.StaticCallee().String() != "fmt.Sprintf" {
+				continue
+			}
+			// varargs array stores in order
+			if sl, ok := call.Call.Args[1].(*ssa.Slice); ok {
+				if arr, ok := sl.X.(*ssa.Alloc); ok {
+					byIdx := map[int64]string{}
+					byIdxV := map[int64]ssa.Value{}
+					for _, ref := range *arr.Referrers() {
+						if ia, ok := ref.(*ssa.IndexAddr); ok {
+							i, _ := constInt(ia.Index)
+							for _, r2 := range *ia.Referrers() {
+								if st, ok := r2.(*ssa.Store); ok {
+									byIdx[i] = pathExpr(st.Val)
+									byIdxV[i] = st.Val
+								}
+							}
+						}
+					}
+					for i := int64(0); i < int64(len(byIdx)); i++ {
+						slots = append(slots, byIdx[i])
+						slotVals = append(slotVals, byIdxV[i])
+					}
+					if cs, ok := call.Call.Args[0].(*ssa.Const); ok && cs.Value != nil {
+						format = constant.StringVal(cs.Value)
+					}
+				}
+			}
+		}
+	}
+	return
+}
+
+// guardedConstString: the string constant v evaluates to when parameter prm has the constant value k - v is a
+// constant, or a phi of constants whose incoming edges are selected by comparisons of prm with constants.
+func guardedConstString(v ssa.Value, prm *ssa.Parameter, k int64) (string, bool) {
+	v = stripConv(v)
+	if mi, ok := v.(*ssa.MakeInterface); ok {
+		v = stripConv(mi.X)
+	}
+	if s, ok := constString(v); ok {
+		return s, true
+	}
+	phi, ok := v.(*ssa.Phi)
+	if !ok {
+		return "", false
+	}
+	holds := func(g guardEdge) (feasible, relevant bool) {
+		bo, ok := g.cond.(*ssa.BinOp)
+		if !ok || (bo.Op != token.EQL && bo.Op != token.NEQ) {
+			return true, false
+		}
+		x, y := stripConv(bo.X), stripConv(bo.Y)
+		var kv int64
+		switch {
+		case x == ssa.Value(prm):
+			c2, ok := constInt(y)
+			if !ok {
+				return true, false
+			}
+			kv = c2
+		case y == ssa.Value(prm):
+			c2, ok := constInt(x)
+			if !ok {
+				return true, false
+			}
+			kv = c2
+		default:
+			return true, false
+		}
+		eq := k == kv
+		if bo.Op == token.NEQ {
+			eq = !eq
+		}
+		return eq == g.pol, true
+	}
+	res, n := "", 0
+	for i, e := range phi.Edges {
+		pred := phi.Block().Preds[i]
+		gs := append([]guardEdge{}, edgeGuards(pred)...)
+		if ifi, ok := pred.Instrs[len(pred.Instrs)-1].(*ssa.If); ok && len(pred.Succs) == 2 {
+			gs = append(gs, guardEdge{cond: ifi.Cond, pol: pred.Succs[0] == phi.Block()})
+		}
+		feasible := true
+		for _, g := range gs {
+			if f, _ := holds(g); !f {
+				feasible = false
+			}
+		}
+		if !feasible {
+			continue
+		}
+		s, ok := guardedConstString(e, prm, k)
+		if !ok {
+			return "", false
+		}
+		if n > 0 && s != res {
+			return "", false
+		}
+		res = s
+		n++
+	}
+	return res, n > 0
 }
